@@ -5,7 +5,7 @@ CONSTANTS
   HopSafe = TRUE
   CLNormalised = TRUE
   BigBodies = TRUE
-  Families = {"id", "sig", "hop"}
+  Families = {"id", "sig", "hop", "inj"}
 CONSTRAINT Track
 POSTCONDITION Accepted
 CHECK_DEADLOCK FALSE
